@@ -190,6 +190,24 @@ def f3_no_double_detour(ctx: Ctx):
             if cn in _DOUBLE_DETOURS or head in _DOUBLE_MODULES or (isinstance(k.func, ast.Attribute) and k.func.attr in _DOUBLE_METHODS):
                 bad.append(norm(k))
         ctx.check(not bad, rel, fn, q, 'spelling -> value without a machine double in between', f'{bad}: the spelling is rounded to 53 significant bits (and to the double exponent range) before the program sees it')
+    # ... and from the value to the rounding: a literal under a rounding context reaches `Context._round_prepare` as a
+    # Fraction (or a string).  Apart from the arm for an operand that *is* a native float, nothing there may pass
+    # through a double: `float(x)` first and the context's rounding second is two roundings.
+    CONTEXT = 'fpy2/number/context/context.py'
+    q = 'Context._round_prepare'
+    fn = ctx.fn(CONTEXT, q)
+    native_arm = {id(x) for m in ast.walk(fn) if isinstance(m, ast.Match) for c in m.cases
+                  if isinstance(c.pattern, ast.MatchClass) and dotted(c.pattern.cls) == 'float' for x in ast.walk(c)}
+    bad = []
+    for k in calls_in(fn):
+        cn = call_name(k) or ''
+        if id(k) in native_arm:
+            continue
+        if cn in _DOUBLE_DETOURS or cn.split('.')[0] in ('math', 'struct', 'np', 'numpy') or (isinstance(k.func, ast.Attribute) and k.func.attr in _DOUBLE_METHODS):
+            bad.append(norm(k))
+    n += 1
+    ctx.check(not bad, CONTEXT, fn, q, 'a rational or textual operand reaches the rounding without a machine double in between',
+              f'{bad}: the value is rounded to binary64 first and to the context second -- round(rational(10000000596046448, 10**16)) under binary32 gives 1.0, not 1 + 2**-23')
     # the text itself reaches the node: the Hexnum is built from the argument's own string
     q = 'Parser._parse_hexfloat'
     fn = ctx.fn(PARSER, q)
@@ -373,6 +391,9 @@ RULES = [
 from ..selftest import Mutant  # noqa: E402
 
 MUTANTS = [
+    Mutant('narrow-formats-prepared-through-a-double', 'fpy2/number/context/context.py', "        p, n = self.round_params()\n        return mpfr_value(x, prec=p, n=n)",
+           "        p, n = self.round_params()\n        if isinstance(x, Fraction) and p is not None and 2 * p + 2 <= 53:\n            return RealFloat.from_float(float(x))\n        return mpfr_value(x, prec=p, n=n)", 'C06.F3',
+           'seeded change C06e: a literal under binary32 is rounded to binary64 first'),
     Mutant('negated-negative-zero-stays-negative', PARSER, "                    if isinstance(arg.as_real(), Float):\n                        return Decnum('0.0', loc)\n", "", 'C06.F2',
            'finding F38 before its repair: -(-0.0) is -0.0'),
     Mutant('hexfloat-spelling-normalised-through-a-double', PARSER, "        return Hexnum(func, arg.val, loc)", "        return Hexnum(func, float.fromhex(arg.val).hex(), loc)", 'C06.F3',
